@@ -257,9 +257,21 @@ func faultBadUTF8(r *model.Rand, data []byte) []byte {
 		pos = r.Intn(len(data) + 1)
 	}
 	ins := model.Pick(r, badUTF8)
+	if r.Chance(1, 3) {
+		// a run of invalid bytes
+		ins = bytes.Repeat(ins, 3+r.Intn(30))
+	}
 	out := append([]byte{}, data[:pos]...)
 	out = append(out, ins...)
-	return append(out, data[pos:]...)
+	out = append(out, data[pos:]...)
+	if r.Chance(1, 4) {
+		// and more of them elsewhere
+		for k := 0; k < 2+r.Intn(8); k++ {
+			q := r.Intn(len(out) + 1)
+			out = append(out[:q:q], append(append([]byte{}, model.Pick(r, badUTF8)...), out[q:]...)...)
+		}
+	}
+	return out
 }
 
 func faultOverlong(r *model.Rand, data []byte) []byte {
@@ -551,9 +563,9 @@ func (p *C09) genNonsense(r *model.Rand) (*nonsense, []string) {
 	case 6:
 		return mk("tempo-zero", "yaml", 0, writeStep(wcmd, yamlPre+"- chord:\n    degree: \"1\"\n    name: \"\"\n  values:\n    - \"1\"\n  bpm: 0\n"+yamlPost, seed))
 	case 7:
-		return mk("unknown-dynamic", "text", 0, textStep(mode, "", pre+head+"[1]{vel="+model.Pick(r, []string{"fff", "loud", "P", "mezzo", "0"})+"}"+post, seed))
+		return mk("unknown-dynamic", "text", 0, textStep(mode, "", pre+head+"[1]{vel="+model.Pick(r, []string{"fff", "loud", "P", "mezzo", "0", "~", "null", "Null", "NULL", "true", "[]", "mf ", "m f", "ｆ", "f f"})+"}"+post, seed))
 	case 8:
-		return mk("unknown-dynamic", "yaml", 0, writeStep(wcmd, yamlPre+"- values:\n    - \"1\"\n  velocity: "+model.Pick(r, []string{"fff", "loud", "PP"})+"\n"+goodInst, seed))
+		return mk("unknown-dynamic", "yaml", 0, writeStep(wcmd, yamlPre+"- values:\n    - \"1\"\n  velocity: "+model.Pick(r, []string{"fff", "loud", "PP", "\"~\"", "\"null\"", "\"\"", "F", "\"f \""})+"\n"+goodInst, seed))
 	case 9:
 		return mk("unknown-dynamic", "flag", 0, writeStep(append(wcmd, "--velocity", model.Pick(r, []string{"fff", "loud", "F"})), goodInst+yamlPost, seed))
 	case 10:
